@@ -2,7 +2,7 @@
    for every interpretation of the structural atoms; is_empty is emptiness on the basic fragment; hence
    is_subtype = inclusion there. *)
 From Beff Require Import Model.SemSpec Model.Subtype Proofs.Bdd Proofs.SemType Proofs.ResLemmas.
-From Coq Require Import Sorting.Permutation.
+From Coq Require Import Sorting.Permutation Lia.
 
 (* ================================================================ equality tests *)
 Lemma list_eqb_spec {A} (eqb : A -> A -> bool) (l1 l2 : list A) :
@@ -74,22 +74,24 @@ Section FlagsSpec.
   Lemma lits_intersect_spec a1 v1 a2 v2 :
     all_lit v1 -> all_lit v2 ->
     exists a v, lits_intersect is_sub eqb leb mk t a1 v1 a2 v2 = Ok (lit_subtype mk t a v) /\ all_lit v /\
-                forall x, lm a v x = lm a1 v1 x && lm a2 v2 x.
+                (forall x, lm a v x = lm a1 v1 x && lm a2 v2 x) /\ (a = false -> forall x, In x v1 -> In x v).
   Proof.
     intros H1 H2. unfold lits_intersect, lits_mem.
     destruct a1, a2.
     - destruct (sub_vec_intersect_lit eqb eqb_spec is_sub leb lit is_sub_lit v1 v2 H1 H2) as (v & -> & Hl & Hv).
-      exists true, v. repeat split; auto. intros x. apply bool_of_iff.
+      exists true, v. repeat split; auto; try discriminate. intros x. apply bool_of_iff.
       rewrite andb_true_iff, !existsb_In_bool. apply Hv.
     - destruct (sub_vec_diff_lit eqb eqb_spec is_sub leb lit is_sub_lit v1 v2 H1 H2) as (v & -> & Hl & Hv).
-      exists true, v. repeat split; auto. intros x. apply bool_of_iff.
+      exists true, v. repeat split; auto; try discriminate. intros x. apply bool_of_iff.
       rewrite andb_true_iff, negb_true_iff, <- not_true_iff_false, !existsb_In_bool. apply Hv.
     - destruct (sub_vec_diff_lit eqb eqb_spec is_sub leb lit is_sub_lit v2 v1 H2 H1) as (v & -> & Hl & Hv).
-      exists true, v. repeat split; auto. intros x. apply bool_of_iff.
+      exists true, v. repeat split; auto; try discriminate. intros x. apply bool_of_iff.
       rewrite andb_true_iff, negb_true_iff, <- not_true_iff_false, !existsb_In_bool. rewrite Hv. tauto.
     - destruct (sub_vec_union_lit eqb eqb_spec is_sub leb lit is_sub_lit v1 v2 H1 H2) as (v & -> & Hl & Hv).
-      exists false, v. repeat split; auto. intros x. apply bool_of_iff.
-      rewrite andb_true_iff, !negb_true_iff, <- !not_true_iff_false, !existsb_In_bool. rewrite Hv. tauto.
+      exists false, v. repeat split; auto.
+      + intros x. apply bool_of_iff.
+        rewrite andb_true_iff, !negb_true_iff, <- !not_true_iff_false, !existsb_In_bool. rewrite Hv. tauto.
+      + intros _ x Hx. apply Hv. left. exact Hx.
   Qed.
 
   Lemma lits_union_spec a1 v1 a2 v2 :
@@ -182,10 +184,10 @@ Proof.
       apply Bool.eqb_prop in E. subst. destruct (Bool.eqb b2 x); reflexivity.
     + split; [reflexivity|]. intros pt Hv Hp. point_cases pt Hv Hp. cbn.
       destruct b1, b2, x; try reflexivity; discriminate E.
-  - destruct (num_inter a1 v1 a2 v2 (pfrag_num _ _ F1) (pfrag_num _ _ F2)) as (a & v & E & Hl & Hm).
+  - destruct (num_inter a1 v1 a2 v2 (pfrag_num _ _ F1) (pfrag_num _ _ F2)) as (a & v & E & Hl & Hm & _).
     rewrite E in Hs. inversion Hs; subst s. split; [apply sub_ok_lit_num; exact Hl|].
     intros pt Hv Hp. point_cases pt Hv Hp. rewrite smem_lit_num. apply Hm.
-  - destruct (str_inter a1 v1 a2 v2 (pfrag_str _ _ F1) (pfrag_str _ _ F2)) as (a & v & E & Hl & Hm).
+  - destruct (str_inter a1 v1 a2 v2 (pfrag_str _ _ F1) (pfrag_str _ _ F2)) as (a & v & E & Hl & Hm & _).
     rewrite E in Hs. inversion Hs; subst s. split; [apply sub_ok_lit_str; exact Hl|].
     intros pt Hv Hp. point_cases pt Hv Hp. rewrite smem_lit_str. apply Hm.
   - destruct (bdd_res (intersect FUEL_BDD d1 d2)) as [b|e] eqn:E; cbn [bind] in Hs; [|discriminate]. inversion Hs; subst s.
@@ -640,4 +642,643 @@ Proof.
   - apply H2. exact Hin.
   - apply stag_eqb_eq. exact Ht.
   - specialize (H3 p Hin). rewrite (has_tau_code _ _ Ht) in H3. apply negb_true_iff in H3. exact H3.
+Qed.
+
+(* ================================================================ difference of semantic types *)
+Definition f_diff (pr : option proper * option proper) : res (option subtype) :=
+  match pr with
+  | (None, Some d2) => do c <- proper_complement d2; Ok (Some (SProper c))
+  | (Some d1, None) => Ok (Some (SProper d1))
+  | (Some d1, Some d2) => do s <- proper_diff d1 d2; Ok (Some s)
+  | _ => Ok None
+  end.
+
+Lemma f_diff_local tau pt : point_tag pt = tau -> forall o1 o2,
+  (forall p, o1 = Some p -> has_tau tau p = false) -> (forall p, o2 = Some p -> has_tau tau p = false) ->
+  contrib true (f_diff (o1, o2)) pt = false.
+Proof.
+  intros Hpt o1 o2 H1 H2. subst tau.
+  assert (NT : forall p, has_tau (point_tag pt) p = false -> proper_tag p <> point_tag pt).
+  { intros p Hp E. unfold has_tau in Hp. rewrite E, stag_eqb_refl in Hp. discriminate Hp. }
+  destruct o1 as [d1|], o2 as [d2|]; cbn [f_diff]; [| | |reflexivity].
+  - destruct (proper_diff d1 d2) as [s|e] eqn:E; cbn [bind]; [|reflexivity].
+    rewrite (contrib_smem _ s pt eq_refl). apply smem_other_tag.
+    destruct (proper_diff_tag _ _ _ E) as [T _]. rewrite T. apply NT. apply H1. reflexivity.
+  - cbn [contrib]. destruct (pmem d1 pt) eqn:E; [|reflexivity]. apply pmem_has_tau in E. rewrite (H1 d1 eq_refl) in E. discriminate E.
+  - destruct (proper_complement d2) as [c|e] eqn:E; cbn [bind]; [|reflexivity]. cbn [contrib].
+    destruct (pmem c pt) eqn:Ec; [|reflexivity]. apply pmem_tag in Ec. rewrite (proper_complement_tag _ _ E) in Ec.
+    exfalso. apply (NT d2 (H2 d2 eq_refl)). exact Ec.
+Qed.
+
+Lemma sem_diff_is_collect t1 t2 t :
+  sem_diff t1 t2 = Ok t ->
+  let all := N.land (st_all t1) (not_bits (N.lor (st_all t2) (some_bits (st_data t2)))) in
+  let some := N.land (N.land (N.lor (st_all t1) (some_bits (st_data t1))) (not_bits (st_all t2))) (not_bits all) in
+  (N.eqb some 0 = true /\ t = mkSem all []) \/
+  (N.eqb some 0 = false /\ sem_collect (pair_iter some (st_data t1) (st_data t2)) f_diff all true = Ok t).
+Proof.
+  unfold sem_diff. cbv zeta. destruct (N.eqb _ 0) eqn:E; intros H.
+  - left. split; [reflexivity|]. inversion H. reflexivity.
+  - right. split; [reflexivity|]. exact H.
+Qed.
+
+(* a successful collection applied its function successfully to every pair *)
+Lemma collect_ok_no_throw f add ps : forall acc r,
+  fold_left (collect_step f add) ps acc = Ok r -> forall pr, In pr ps -> exists o, f pr = Ok o.
+Proof.
+  induction ps as [|p ps IH]; intros acc r H pr Hin; [contradiction|].
+  cbn [fold_left] in H. destruct acc as [st|e]; [|cbn in H; rewrite fold_throw in H; discriminate H].
+  destruct (f p) as [o|e] eqn:Ef.
+  - destruct Hin as [<-|Hin]; [eauto|]. eapply IH; [exact H|exact Hin].
+  - unfold collect_step at 2 in H. cbn [bind] in H. rewrite Ef in H. cbn [bind] in H. rewrite fold_throw in H. discriminate H.
+Qed.
+
+Definition opt_tau (tau : stag) (o : option proper) : bool := match o with Some p => has_tau tau p | None => false end.
+Definition throws_tau (tau : stag) (f : option proper * option proper -> res (option subtype)) (pr : option proper * option proper) : bool :=
+  (opt_tau tau (fst pr) || opt_tau tau (snd pr)) && match f pr with Throw _ => true | Ok _ => false end.
+
+Lemma throws_local tau f o1 o2 :
+  (forall p, o1 = Some p -> has_tau tau p = false) -> (forall p, o2 = Some p -> has_tau tau p = false) -> throws_tau tau f (o1, o2) = false.
+Proof.
+  intros H1 H2. unfold throws_tau. cbn [fst snd].
+  assert (A : opt_tau tau o1 = false) by (destruct o1; [apply H1; reflexivity|reflexivity]).
+  assert (B : opt_tau tau o2 = false) by (destruct o2; [apply H2; reflexivity|reflexivity]).
+  rewrite A, B. reflexivity.
+Qed.
+
+Lemma collect_pair_ok tau some f all0 add l1 l2 t :
+  codes_increasing l1 = true -> codes_increasing l2 = true ->
+  sem_collect (pair_iter some l1 l2) f all0 add = Ok t ->
+  has_bit some (stag_code tau) = true ->
+  opt_tau tau (lk tau l1) || opt_tau tau (lk tau l2) = true ->
+  exists o, f (lk tau l1, lk tau l2) = Ok o.
+Proof.
+  intros I1 I2 Hc Hs Ht.
+  pose proof (merge_spec tau some (throws_tau tau f) (throws_local tau f) l1 l2 I1 I2) as M. rewrite Hs in M. cbn [andb] in M.
+  destruct (f (lk tau l1, lk tau l2)) as [o|e] eqn:Ef; [eauto|].
+  exfalso. unfold throws_tau at 2 in M. cbn [fst snd] in M. rewrite Ht, Ef in M. cbn [andb] in M.
+  apply existsb_exists in M as [pr [Hin Hthrow]].
+  unfold sem_collect in Hc.
+  change (fold_left _ (pair_iter some l1 l2) (Ok (all0, []))) with (fold_left (collect_step f add) (pair_iter some l1 l2) (Ok (all0, []))) in Hc.
+  destruct (fold_left (collect_step f add) (pair_iter some l1 l2) (Ok (all0, []))) as [r|e'] eqn:E; cbn [bind] in Hc; [|discriminate Hc].
+  destruct (collect_ok_no_throw f add _ _ _ E pr Hin) as [o Ho].
+  unfold throws_tau in Hthrow. rewrite Ho in Hthrow. rewrite andb_false_r in Hthrow. discriminate Hthrow.
+Qed.
+
+Lemma diff_tau_pair_ok t1 t2 t tau :
+  wf2 t1 = true -> wf2 t2 = true -> sem_diff t1 t2 = Ok t ->
+  ((has_bit (st_all t1) (stag_code tau) || has_bit (some_bits (st_data t1)) (stag_code tau)) && negb (has_bit (st_all t2) (stag_code tau)))
+  && negb (has_bit (st_all t1) (stag_code tau) && negb (has_bit (st_all t2) (stag_code tau) || has_bit (some_bits (st_data t2)) (stag_code tau))) = true ->
+  opt_tau tau (lk tau (st_data t1)) || opt_tau tau (lk tau (st_data t2)) = true ->
+  exists o, f_diff (lk tau (st_data t1), lk tau (st_data t2)) = Ok o.
+Proof.
+  intros W1 W2 Hd Hs Ht.
+  assert (I1 : codes_increasing (st_data t1) = true) by (unfold wf2 in W1; apply andb_prop in W1 as [W _]; apply andb_prop in W as [W _]; exact W).
+  assert (I2 : codes_increasing (st_data t2) = true) by (unfold wf2 in W2; apply andb_prop in W2 as [W _]; apply andb_prop in W as [W _]; exact W).
+  destruct (sem_diff_is_collect t1 t2 t Hd) as [[Ez _]|[Ez Hc]].
+  - exfalso. apply N.eqb_eq in Ez.
+    assert (Z : has_bit (N.land (N.land (N.lor (st_all t1) (some_bits (st_data t1))) (not_bits (st_all t2)))
+                                (not_bits (N.land (st_all t1) (not_bits (N.lor (st_all t2) (some_bits (st_data t2))))))) (stag_code tau) = false)
+      by (rewrite Ez; apply has_bit_0).
+    rewrite !has_bit_land, !has_bit_not, !has_bit_lor, !has_bit_land, !has_bit_not, !has_bit_lor in Z. congruence.
+  - eapply (collect_pair_ok tau _ f_diff _ true _ _ t I1 I2 Hc); [|exact Ht].
+    rewrite !has_bit_land, !has_bit_not, !has_bit_lor, !has_bit_land, !has_bit_not, !has_bit_lor. exact Hs.
+Qed.
+
+Theorem sem_diff_mem t1 t2 t pt :
+  wf2 t1 = true -> wf2 t2 = true -> valid_point pt = true -> sem_diff t1 t2 = Ok t ->
+  mem t pt = mem t1 pt && negb (mem t2 pt).
+Proof.
+  intros W1 W2 Hv Hd.
+  set (tau := point_tag pt).
+  rewrite (mem_lookup t1 pt W1), (mem_lookup t2 pt W2). fold tau.
+  pose proof (some_bits_lk tau (st_data t1)) as S1. pose proof (some_bits_lk tau (st_data t2)) as S2.
+  assert (I1 : codes_increasing (st_data t1) = true) by (unfold wf2 in W1; apply andb_prop in W1 as [W _]; apply andb_prop in W as [W _]; exact W).
+  assert (I2 : codes_increasing (st_data t2) = true) by (unfold wf2 in W2; apply andb_prop in W2 as [W _]; apply andb_prop in W as [W _]; exact W).
+  (* the membership of the result, in terms of the pair found for the tag of the point *)
+  assert (R : mem t pt =
+              (has_bit (st_all t1) (stag_code tau) && negb (has_bit (st_all t2) (stag_code tau) || has_bit (some_bits (st_data t2)) (stag_code tau)))
+              || (((has_bit (st_all t1) (stag_code tau) || has_bit (some_bits (st_data t1)) (stag_code tau)) && negb (has_bit (st_all t2) (stag_code tau)))
+                  && negb (has_bit (st_all t1) (stag_code tau) && negb (has_bit (st_all t2) (stag_code tau) || has_bit (some_bits (st_data t2)) (stag_code tau)))
+                  && contrib true (f_diff (lk tau (st_data t1), lk tau (st_data t2))) pt)).
+  { destruct (sem_diff_is_collect t1 t2 t Hd) as [[Ez ->]|[Ez Hc]].
+    - unfold mem. cbn [st_all st_data existsb]. rewrite orb_false_r. fold tau.
+      apply N.eqb_eq in Ez.
+      assert (Z : has_bit (N.land (N.land (N.lor (st_all t1) (some_bits (st_data t1))) (not_bits (st_all t2)))
+                                  (not_bits (N.land (st_all t1) (not_bits (N.lor (st_all t2) (some_bits (st_data t2))))))) (stag_code tau) = false)
+        by (rewrite Ez; apply has_bit_0).
+      rewrite !has_bit_land, !has_bit_not, !has_bit_lor, !has_bit_land, !has_bit_not, !has_bit_lor in Z.
+      rewrite !has_bit_land, !has_bit_not, !has_bit_lor. rewrite Z. rewrite andb_false_l, orb_false_r. reflexivity.
+    - rewrite (collect_mem _ _ _ _ _ pt Hc). fold tau.
+      rewrite (merge_spec tau _ (fun pr => contrib true (f_diff pr) pt) (f_diff_local tau pt eq_refl) _ _ I1 I2).
+      rewrite !has_bit_land, !has_bit_not, !has_bit_lor, !has_bit_land, !has_bit_not, !has_bit_lor. reflexivity. }
+  rewrite R, S1, S2. clear R S1 S2.
+  destruct (lk tau (st_data t1)) as [p1|] eqn:L1, (lk tau (st_data t2)) as [p2|] eqn:L2.
+  - destruct (wf2_lk t1 tau p1 W1 L1) as (F1 & T1 & A1). destruct (wf2_lk t2 tau p2 W2 L2) as (F2 & T2 & A2).
+    rewrite A1, A2. cbn [andb orb negb f_diff].
+    destruct (proper_diff p1 p2) as [s|e] eqn:E.
+    + cbn [bind]. rewrite (contrib_smem _ s pt eq_refl).
+      destruct (proper_diff_spec p1 p2 s F1 F2 (eq_trans T1 (eq_sym T2)) E) as [_ M]. rewrite (M pt Hv (eq_sym T1)). reflexivity.
+    + exfalso. (* the operation succeeded as a whole, so it succeeded on this pair *)
+      destruct (diff_tau_pair_ok t1 t2 t tau W1 W2 Hd) as [o Ho].
+      * rewrite (some_bits_lk tau (st_data t1)), (some_bits_lk tau (st_data t2)), L1, L2, A1, A2. reflexivity.
+      * rewrite L1. cbn [opt_tau]. destruct (lk_some _ _ _ L1) as [_ ->]. reflexivity.
+      * rewrite L1, L2 in Ho. cbn [f_diff] in Ho. rewrite E in Ho. discriminate Ho.
+  - destruct (wf2_lk t1 tau p1 W1 L1) as (F1 & T1 & A1). rewrite A1. cbn [andb orb negb f_diff contrib].
+    destruct (has_bit (st_all t2) (stag_code tau)), (pmem p1 pt); reflexivity.
+  - destruct (wf2_lk t2 tau p2 W2 L2) as (F2 & T2 & A2). rewrite A2. cbn [andb orb negb f_diff].
+    destruct (proper_complement p2) as [c|e] eqn:E.
+    + cbn [bind contrib]. destruct (proper_complement_spec p2 c F2 E) as (_ & _ & M). rewrite (M pt Hv (eq_sym T2)).
+      destruct (has_bit (st_all t1) (stag_code tau)), (pmem p2 pt); reflexivity.
+    + cbn [bind contrib]. destruct (has_bit (st_all t1) (stag_code tau)) eqn:A1; [|reflexivity].
+      exfalso. destruct (diff_tau_pair_ok t1 t2 t tau W1 W2 Hd) as [o Ho].
+      * rewrite (some_bits_lk tau (st_data t1)), (some_bits_lk tau (st_data t2)), L1, L2, A1, A2. reflexivity.
+      * rewrite L2. cbn [opt_tau]. destruct (lk_some _ _ _ L2) as [_ ->]. apply orb_true_r.
+      * rewrite L1, L2 in Ho. cbn [f_diff] in Ho. rewrite E in Ho. discriminate Ho.
+  - cbn [f_diff contrib]. rewrite !orb_false_r, andb_false_r, orb_false_r. reflexivity.
+Qed.
+
+(* ================================================================ assignability = inclusion *)
+Section Assignability.
+  Variable struct_empty : proper -> res bool.
+  (* the structured points values can realise, and the assumption that the emptiness oracle is sound on them *)
+  Variable realisable : (atom -> bool) -> Prop.
+  Hypothesis oracle_sound : forall p u rho, struct_empty p = Ok true -> realisable rho -> pmem p (PtStruct u rho) = false.
+
+  Definition real_point (pt : point) : Prop :=
+    valid_point pt = true /\ match pt with PtStruct _ rho => realisable rho | _ => True end.
+
+  Lemma proper_empty_no_member p pt : proper_is_empty struct_empty p = Ok true -> real_point pt -> pmem p pt = false.
+  Proof.
+    intros He [Hv Hr]. destruct p; cbn [proper_is_empty] in He; try discriminate He;
+      destruct pt as [x|z|s|k|u|u rho]; try reflexivity; try (destruct u; reflexivity);
+      apply (oracle_sound _ u rho He Hr).
+  Qed.
+
+  Lemma empty_no_member t pt : sem_is_empty struct_empty t = Ok true -> real_point pt -> mem t pt = false.
+  Proof.
+    unfold sem_is_empty. destruct (N.eqb (st_all t) 0) eqn:Ea; cbn [negb]; [|discriminate].
+    intros He Hp. apply N.eqb_eq in Ea. unfold mem. rewrite Ea.
+    assert (Z : has_bit 0 (stag_code (point_tag pt)) = false) by apply has_bit_0. rewrite Z. cbn [orb].
+    destruct (existsb (fun p => pmem p pt) (st_data t)) eqn:Ex; [|reflexivity].
+    apply existsb_exists in Ex as [p [Hin Hm]].
+    pose proof (forall_res_true_inv _ _ He p Hin) as Hpe. rewrite (proper_empty_no_member p pt Hpe Hp) in Hm. discriminate Hm.
+  Qed.
+
+  Theorem subtype_sound a b :
+    wf2 a = true -> wf2 b = true -> sem_is_subtype struct_empty a b = Ok true ->
+    forall pt, real_point pt -> mem a pt = true -> mem b pt = true.
+  Proof.
+    intros Wa Wb Hs pt Hp Ha. unfold sem_is_subtype in Hs.
+    destruct (sem_diff a b) as [d|e] eqn:Ed; cbn [bind] in Hs; [|discriminate].
+    pose proof (empty_no_member d pt Hs Hp) as Hd.
+    rewrite (sem_diff_mem a b d pt Wa Wb (proj1 Hp) Ed), Ha in Hd. cbn [andb] in Hd.
+    destruct (mem b pt); [reflexivity|discriminate Hd].
+  Qed.
+End Assignability.
+
+(* ================================================================ where the collected proper subtypes come from *)
+Lemma pair_iter_in bits l1 : forall l2 o1 o2, In (o1, o2) (pair_iter bits l1 l2) ->
+  (forall p, o1 = Some p -> In p l1) /\ (forall p, o2 = Some p -> In p l2) /\
+  (forall p q, o1 = Some p -> o2 = Some q -> proper_code p = proper_code q).
+Proof.
+  induction l1 as [|d1 l1 IH1]; intros l2.
+  - induction l2 as [|d2 l2 IH2]; intros o1 o2 H; [contradiction|].
+    rewrite pi_nil_cons in H.
+    assert (G : In (o1, o2) ((None, Some d2) :: pair_iter bits [] l2) -> (forall p, o1 = Some p -> In p []) /\ (forall p, o2 = Some p -> In p (d2 :: l2)) /\
+                                                                       (forall p q, o1 = Some p -> o2 = Some q -> proper_code p = proper_code q)).
+    { intros [E|E]; [inversion E; subst; repeat split; intros; try discriminate; inversion H0; subst; left; reflexivity|].
+      destruct (IH2 _ _ E) as (A & B & C). repeat split; auto. intros p Hp. right. apply B. exact Hp. }
+    destruct (has_bit bits (proper_code d2)); [apply G; exact H|apply G; right; exact H].
+  - induction l2 as [|d2 l2 IH2]; intros o1 o2 H.
+    + rewrite pi_cons_nil in H.
+      assert (G : In (o1, o2) ((Some d1, None) :: pair_iter bits l1 []) -> (forall p, o1 = Some p -> In p (d1 :: l1)) /\ (forall p, o2 = Some p -> In p []) /\
+                                                                         (forall p q, o1 = Some p -> o2 = Some q -> proper_code p = proper_code q)).
+      { intros [E|E]; [inversion E; subst; repeat split; intros; try discriminate; inversion H0; subst; left; reflexivity|].
+        destruct (IH1 _ _ _ E) as (A & B & C). repeat split; auto. intros p Hp. right. apply A. exact Hp. }
+      destruct (has_bit bits (proper_code d1)); [apply G; exact H|apply G; right; exact H].
+    + rewrite pi_cons_cons in H.
+      destruct (N.compare_spec (proper_code d1) (proper_code d2)) as [Heq|Hlt|Hgt].
+      * assert (G : In (o1, o2) ((Some d1, Some d2) :: pair_iter bits l1 l2) -> (forall p, o1 = Some p -> In p (d1 :: l1)) /\ (forall p, o2 = Some p -> In p (d2 :: l2)) /\
+                                                                              (forall p q, o1 = Some p -> o2 = Some q -> proper_code p = proper_code q)).
+        { intros [E|E].
+          - inversion E; subst. repeat split; intros p; intros; try (inversion H0; subst; left; reflexivity).
+            inversion H0; inversion H1; subst. exact Heq.
+          - destruct (IH1 _ _ _ E) as (A & B & C). repeat split; auto; intros p Hp; right; [apply A|apply B]; exact Hp. }
+        destruct (has_bit bits (proper_code d1)); [apply G; exact H|apply G; right; exact H].
+      * assert (G : In (o1, o2) ((Some d1, None) :: pair_iter bits l1 (d2 :: l2)) -> (forall p, o1 = Some p -> In p (d1 :: l1)) /\ (forall p, o2 = Some p -> In p (d2 :: l2)) /\
+                                                                                    (forall p q, o1 = Some p -> o2 = Some q -> proper_code p = proper_code q)).
+        { intros [E|E]; [inversion E; subst; repeat split; intros; try discriminate; inversion H0; subst; left; reflexivity|].
+          destruct (IH1 _ _ _ E) as (A & B & C). repeat split; auto. intros p Hp. right. apply A. exact Hp. }
+        destruct (has_bit bits (proper_code d1)); [apply G; exact H|apply G; right; exact H].
+      * assert (G : In (o1, o2) ((None, Some d2) :: pair_iter bits (d1 :: l1) l2) -> (forall p, o1 = Some p -> In p (d1 :: l1)) /\ (forall p, o2 = Some p -> In p (d2 :: l2)) /\
+                                                                                    (forall p q, o1 = Some p -> o2 = Some q -> proper_code p = proper_code q)).
+        { intros [E|E]; [inversion E; subst; repeat split; intros; try discriminate; inversion H0; subst; left; reflexivity|].
+          destruct (IH2 _ _ E) as (A & B & C). repeat split; auto. intros p Hp. right. apply B. exact Hp. }
+        destruct (has_bit bits (proper_code d2)); [apply G; exact H|apply G; right; exact H].
+Qed.
+
+Lemma collect_data_origin f add ps : forall a0 d0 a d,
+  fold_left (collect_step f add) ps (Ok (a0, d0)) = Ok (a, d) ->
+  forall p, In p d -> In p d0 \/ exists pr, In pr ps /\ f pr = Ok (Some (SProper p)).
+Proof.
+  induction ps as [|pr ps IH]; intros a0 d0 a d H p Hp; cbn [fold_left] in H.
+  - inversion H; subst. left. exact Hp.
+  - unfold collect_step at 2 in H. cbn [bind] in H.
+    destruct (f pr) as [[[g|g|q]|]|e] eqn:Ef; cbn [bind fst snd] in H; try (rewrite fold_throw in H; discriminate H).
+    + destruct (IH _ _ _ _ H p Hp) as [L|(pr' & Hin & Hf)]; [left; exact L|right; exists pr'; split; [right; exact Hin|exact Hf]].
+    + destruct add; destruct (IH _ _ _ _ H p Hp) as [L|(pr' & Hin & Hf)]; try (left; exact L); right; exists pr'; (split; [right; exact Hin|exact Hf]).
+    + destruct (IH _ _ _ _ H p Hp) as [L|(pr' & Hin & Hf)].
+      * apply in_app_or in L as [L|[<-|[]]]; [left; exact L|]. right. exists pr. split; [left; reflexivity|exact Ef].
+      * right. exists pr'. split; [right; exact Hin|exact Hf].
+    + destruct (IH _ _ _ _ H p Hp) as [L|(pr' & Hin & Hf)]; [left; exact L|right; exists pr'; split; [right; exact Hin|exact Hf]].
+Qed.
+
+(* the proper subtypes of a difference of well-formed types are of the fragment, and basic if the operands are *)
+Definition basic_proper (p : proper) : bool :=
+  match p with PBoolean _ | PNumber _ _ | PString _ _ => true | _ => false end.
+
+Lemma wf2_parts t : wf2 t = true ->
+  codes_increasing (st_data t) = true /\ (forall p, In p (st_data t) -> pfrag p = true).
+Proof.
+  unfold wf2. intros H. apply andb_prop in H as [H _]. apply andb_prop in H as [H1 H2].
+  split; [exact H1|]. rewrite forallb_forall in H2. exact H2.
+Qed.
+
+Lemma basic_tag_inv p q : proper_tag p = proper_tag q -> basic_proper p = basic_proper q.
+Proof. destruct p, q; cbn; intros H; try reflexivity; discriminate H. Qed.
+
+Lemma sem_diff_data t1 t2 t :
+  wf2 t1 = true -> wf2 t2 = true -> sem_diff t1 t2 = Ok t ->
+  forall p, In p (st_data t) ->
+    pfrag p = true /\
+    ((forall q, In q (st_data t1) -> basic_proper q = true) -> (forall q, In q (st_data t2) -> basic_proper q = true) -> basic_proper p = true).
+Proof.
+  intros W1 W2 Hd p Hp.
+  destruct (wf2_parts t1 W1) as [I1 F1]. destruct (wf2_parts t2 W2) as [I2 F2].
+  destruct (sem_diff_is_collect t1 t2 t Hd) as [[_ ->]|[_ Hc]]; [contradiction|].
+  unfold sem_collect in Hc.
+  match type of Hc with (do r <- fold_left _ ?ps (Ok (?a0, [])); _) = _ =>
+    change (fold_left _ ps (Ok (a0, []))) with (fold_left (collect_step f_diff true) ps (Ok (a0, []))) in Hc;
+    destruct (fold_left (collect_step f_diff true) ps (Ok (a0, []))) as [[a d]|e] eqn:E; cbn [bind] in Hc; [|discriminate Hc]
+  end.
+  inversion Hc; subst t. cbn [st_data snd] in Hp.
+  destruct (collect_data_origin _ _ _ _ _ _ _ E p Hp) as [[]|([o1 o2] & Hin & Hf)].
+  destruct (pair_iter_in _ _ _ _ _ Hin) as (A & B & C).
+  destruct o1 as [d1|], o2 as [d2|]; cbn [f_diff] in Hf.
+  - destruct (proper_diff d1 d2) as [s|e] eqn:Es; cbn [bind] in Hf; [|discriminate Hf]. inversion Hf; subst s.
+    pose proof (code_eq_tag _ _ (C d1 d2 eq_refl eq_refl)) as Ht.
+    destruct (proper_diff_spec d1 d2 _ (F1 d1 (A d1 eq_refl)) (F2 d2 (B d2 eq_refl)) Ht Es) as [[Tp Fp] _].
+    split; [exact Fp|]. intros B1 _. rewrite (basic_tag_inv p d1 Tp). apply B1. apply A. reflexivity.
+  - inversion Hf; subst p. split; [apply F1; apply A; reflexivity|]. intros B1 _. apply B1. apply A. reflexivity.
+  - destruct (proper_complement d2) as [c|e] eqn:Ec; cbn [bind] in Hf; [|discriminate Hf]. inversion Hf; subst c.
+    destruct (proper_complement_spec d2 p (F2 d2 (B d2 eq_refl)) Ec) as (Tp & Fp & _).
+    split; [exact Fp|]. intros _ B2. rewrite (basic_tag_inv p d2 Tp). apply B2. apply B. reflexivity.
+  - discriminate Hf.
+Qed.
+
+(* ================================================================ every basic proper subtype of the fragment has a value *)
+Definition num_bound (vs : list numval) : Z :=
+  fold_right (fun v acc => match v with NLit z => Z.max (Z.abs z) acc | _ => acc end) 0%Z vs.
+Lemma num_bound_ge vs z : In (NLit z) vs -> (Z.abs z <= num_bound vs)%Z.
+Proof.
+  induction vs as [|v vs IH]; cbn [In num_bound fold_right]; [contradiction|].
+  intros [->|H]; [apply Z.le_max_l|]. fold (num_bound vs). specialize (IH H).
+  destruct v; [eapply Z.le_trans; [exact IH|apply Z.le_max_r]|exact IH].
+Qed.
+Lemma num_fresh vs : existsb (numval_eqb (NLit (1 + num_bound vs))) vs = false.
+Proof.
+  destruct (existsb (numval_eqb (NLit (1 + num_bound vs))) vs) eqn:E; [|reflexivity].
+  apply (existsb_eqb_In numval_eqb numval_eqb_spec) in E. apply num_bound_ge in E.
+  exfalso. revert E. generalize (num_bound vs). intros b. assert (0 <= b \/ b < 0)%Z by apply Z.le_gt_cases.
+  destruct H; [rewrite Z.abs_eq by (apply Z.add_nonneg_nonneg; [discriminate|exact H])|]; intros E.
+  - apply (Z.lt_irrefl b). eapply Z.lt_le_trans; [|exact E]. apply Z.lt_add_pos_l. reflexivity.
+  - pose proof (Z.abs_nonneg (1 + b)). apply (Z.lt_irrefl b). eapply Z.lt_le_trans; [exact H|]. eapply Z.le_trans; [exact H0|exact E].
+Qed.
+
+Fixpoint str_len (s : string) : nat := match s with EmptyString => 0 | String _ s' => S (str_len s') end.
+Fixpoint a_s (n : nat) : string := match n with O => EmptyString | S n' => String "a" (a_s n') end.
+Lemma a_s_len n : str_len (a_s n) = n.
+Proof. induction n; cbn; congruence. Qed.
+Definition str_bound (vs : list strval) : nat :=
+  fold_right (fun v acc => match v with STpl [TplConst s] => Nat.max (str_len s) acc | _ => acc end) 0 vs.
+Lemma str_bound_ge vs s : In (STpl [TplConst s]) vs -> str_len s <= str_bound vs.
+Proof.
+  induction vs as [|v vs IH]; cbn [In str_bound fold_right]; [contradiction|].
+  intros [->|H]; [apply Nat.le_max_l|]. fold (str_bound vs). specialize (IH H).
+  destruct v as [|[|[| | |c|] [|]]]; try exact IH. eapply Nat.le_trans; [exact IH|apply Nat.le_max_r].
+Qed.
+Lemma str_fresh vs : existsb (strval_eqb (lit_str (a_s (S (str_bound vs))))) vs = false.
+Proof.
+  destruct (existsb (strval_eqb (lit_str (a_s (S (str_bound vs))))) vs) eqn:E; [|reflexivity].
+  apply (existsb_eqb_In strval_eqb strval_eqb_spec) in E. unfold lit_str in E. apply str_bound_ge in E.
+  rewrite a_s_len in E. exfalso. apply (Nat.nle_succ_diag_l _ E).
+Qed.
+
+Lemma basic_inhabited p : pfrag p = true -> basic_proper p = true -> exists pt, valid_point pt = true /\ pmem p pt = true.
+Proof.
+  destruct p as [b|a vs|a vs| | | | | | ]; cbn [basic_proper]; try discriminate; intros F _.
+  - exists (PtBool b). split; [reflexivity|]. cbn. apply Bool.eqb_reflx.
+  - cbn in F. apply andb_prop in F as [Fl Fn]. destruct a.
+    + destruct vs as [|[z|f ar] vs]; try discriminate Fn; try discriminate Fl.
+      exists (PtNum z). split; [reflexivity|]. cbn. rewrite Z.eqb_refl. reflexivity.
+    + exists (PtNum (1 + num_bound vs)). split; [reflexivity|]. cbn [pmem]. unfold lits_mem. rewrite num_fresh. reflexivity.
+  - cbn in F. apply andb_prop in F as [Fl Fn]. destruct a.
+    + destruct vs as [|[f ar|[|[| | |c|] [|]]] vs]; try discriminate Fn; try discriminate Fl.
+      exists (PtStr c). split; [reflexivity|]. cbn. rewrite String.eqb_refl. reflexivity.
+    + exists (PtStr (a_s (S (str_bound vs)))). split; [reflexivity|]. cbn [pmem]. unfold lits_mem. rewrite str_fresh. reflexivity.
+Qed.
+
+(* a non-zero tag set inside VAL has a tag, and every tag has a valid point *)
+Definition tag_point (g : stag) : point :=
+  match g with
+  | TgBoolean => PtBool true | TgNumber => PtNum 0 | TgString => PtStr ""
+  | TgMapping | TgList | TgMap | TgSet => PtStruct g (fun _ => false)
+  | TgTypedArray => PtTyped Uint8Array
+  | _ => PtUnit g
+  end.
+Lemma tag_point_ok g : valid_point (tag_point g) = true /\ point_tag (tag_point g) = g.
+Proof. destruct g; split; reflexivity. Qed.
+
+Lemma nonzero_in_val_has_tag a : a <> 0%N -> N.land a VAL = a -> exists g, has_bit a (stag_code g) = true.
+Proof.
+  intros Hnz Hval.
+  destruct (existsb (fun g => has_bit a (stag_code g)) all_stags) eqn:E.
+  - apply existsb_exists in E as [g [_ Hg]]. eauto.
+  - exfalso. apply Hnz. apply N.bits_inj. intros k. rewrite N.bits_0. rewrite <- Hval, N.land_spec.
+    destruct (N.testbit VAL k) eqn:Ek; [|apply andb_false_r]. rewrite andb_true_r.
+    assert (Hk : exists g, stag_shift g = k).
+    { destruct (N.lt_ge_cases k 14) as [Hlt|Hge].
+      - assert (Hc : (k = 0 \/ k = 1 \/ k = 2 \/ k = 3 \/ k = 4 \/ k = 5 \/ k = 6 \/ k = 7 \/ k = 8 \/ k = 9 \/ k = 10 \/ k = 11 \/ k = 12 \/ k = 13)%N) by lia.
+        destruct Hc as [->|[->|[->|[->|[->|[->|[->|[->|[->|[->|[->|[->|[->| ->]]]]]]]]]]]]];
+          [vm_compute in Ek; discriminate Ek|exists TgBoolean|exists TgNumber|exists TgString|exists TgNull|exists TgMapping|exists TgOptionalProp
+           |exists TgList|exists TgBigInt|exists TgDate|exists TgVoidUndefined|exists TgTypedArray|exists TgMap|exists TgSet]; reflexivity.
+      - exfalso. rewrite N.bits_above_log2 in Ek; [discriminate Ek|]. eapply N.lt_le_trans; [|exact Hge]. vm_compute. reflexivity. }
+    destruct Hk as [g <-]. rewrite <- has_bit_testbit.
+    destruct (has_bit a (stag_code g)) eqn:Hg; [|reflexivity].
+    assert (X : existsb (fun g0 => has_bit a (stag_code g0)) all_stags = true).
+    { apply existsb_exists. exists g. split; [destruct g; cbn; tauto|exact Hg]. }
+    congruence.
+Qed.
+
+(* ================================================================ completeness on the basic fragment *)
+Lemma code_in_val g : N.land (stag_code g) VAL = stag_code g.
+Proof. destruct g; reflexivity. Qed.
+
+Lemma collect_all_in_val f add ps : forall a0 d0 a d,
+  fold_left (collect_step f add) ps (Ok (a0, d0)) = Ok (a, d) -> N.land a0 VAL = a0 -> N.land a VAL = a.
+Proof.
+  induction ps as [|pr ps IH]; intros a0 d0 a d H Hv; cbn [fold_left] in H.
+  - inversion H; subst. exact Hv.
+  - unfold collect_step at 2 in H. cbn [bind] in H.
+    destruct (f pr) as [[[g|g|q]|]|e]; cbn [bind fst snd] in H; try (rewrite fold_throw in H; discriminate H);
+      try (eapply IH; [exact H|exact Hv]).
+    destruct add; [|eapply IH; [exact H|exact Hv]].
+    eapply IH; [exact H|]. rewrite N.land_lor_distr_l, Hv, code_in_val. reflexivity.
+Qed.
+
+Lemma land_sub_val a x : N.land a VAL = a -> N.land (N.land a x) VAL = N.land a x.
+Proof. intros H. rewrite <- N.land_assoc, (N.land_comm x VAL), N.land_assoc, H. reflexivity. Qed.
+
+Lemma sem_diff_all_in_val t1 t2 t : sem_diff t1 t2 = Ok t -> N.land (st_all t1) VAL = st_all t1 -> N.land (st_all t) VAL = st_all t.
+Proof.
+  intros Hd Hv. destruct (sem_diff_is_collect t1 t2 t Hd) as [[_ ->]|[_ Hc]]; cbn [st_all]; [apply land_sub_val; exact Hv|].
+  unfold sem_collect in Hc.
+  match type of Hc with (do r <- fold_left _ ?ps (Ok (?a0, [])); _) = _ =>
+    change (fold_left _ ps (Ok (a0, []))) with (fold_left (collect_step f_diff true) ps (Ok (a0, []))) in Hc;
+    destruct (fold_left (collect_step f_diff true) ps (Ok (a0, []))) as [[a d]|e] eqn:E; cbn [bind] in Hc; [|discriminate Hc]
+  end.
+  inversion Hc; subst t. cbn [st_all fst]. eapply collect_all_in_val; [exact E|]. apply land_sub_val. exact Hv.
+Qed.
+
+Theorem subtype_complete_basic a b :
+  wf2 a = true -> wf2 b = true ->
+  (forall q, In q (st_data a) -> basic_proper q = true) -> (forall q, In q (st_data b) -> basic_proper q = true) ->
+  N.land (st_all a) VAL = st_all a ->
+  sem_is_subtype no_struct a b = Ok false ->
+  exists pt, valid_point pt = true /\ mem a pt = true /\ mem b pt = false.
+Proof.
+  intros Wa Wb Ba Bb Hval Hs. unfold sem_is_subtype in Hs.
+  destruct (sem_diff a b) as [d|e] eqn:Ed; cbn [bind] in Hs; [|discriminate].
+  assert (Hpt : exists pt, valid_point pt = true /\ mem d pt = true).
+  { unfold sem_is_empty in Hs. destruct (N.eqb (st_all d) 0) eqn:Ea; cbn [negb] in Hs.
+    - destruct (st_data d) as [|p ps] eqn:Edata; [cbn in Hs; discriminate Hs|].
+      destruct (sem_diff_data a b d Wa Wb Ed p) as [Fp Bp]; [rewrite Edata; left; reflexivity|].
+      destruct (basic_inhabited p Fp (Bp Ba Bb)) as (pt & Hv & Hm).
+      exists pt. split; [exact Hv|]. unfold mem. rewrite Edata. cbn [existsb]. rewrite Hm. rewrite orb_true_r. reflexivity.
+    - apply N.eqb_neq in Ea.
+      destruct (nonzero_in_val_has_tag _ Ea (sem_diff_all_in_val a b d Ed Hval)) as [g Hg].
+      destruct (tag_point_ok g) as [Hv Ht]. exists (tag_point g). split; [exact Hv|]. unfold mem. rewrite Ht, Hg. reflexivity. }
+  destruct Hpt as (pt & Hv & Hm). exists pt. split; [exact Hv|].
+  rewrite (sem_diff_mem a b d pt Wa Wb Hv Ed) in Hm. apply andb_prop in Hm as [H1 H2]. apply negb_true_iff in H2. auto.
+Qed.
+
+(* ================================================================ intersection and union of semantic types *)
+Lemma pfrag_num_nonempty a v : pfrag (PNumber a v) = true -> v <> [].
+Proof. cbn. intros H Hv. subst. discriminate H. Qed.
+Lemma pfrag_str_nonempty a v : pfrag (PString a v) = true -> v <> [].
+Proof. cbn. intros H Hv. subst. discriminate H. Qed.
+
+Lemma lit_subtype_not_true {K} (mk : bool -> list K -> proper) t a v (v1 : list K) :
+  v1 <> [] -> (a = false -> forall x, In x v1 -> In x v) -> forall g, lit_subtype mk t a v <> STrue g.
+Proof.
+  intros Hne Hsub g. destruct v as [|x v]; [|discriminate]. destruct a; [discriminate|].
+  exfalso. destruct v1 as [|y v1]; [apply Hne; reflexivity|]. apply (Hsub eq_refl y). left. reflexivity.
+Qed.
+
+Lemma proper_intersect_not_true p1 p2 s :
+  pfrag p1 = true -> pfrag p2 = true -> proper_intersect p1 p2 = Ok s -> forall g, s <> STrue g.
+Proof.
+  intros F1 F2 Hs g.
+  destruct p1 as [b1|a1 v1|a1 v1|d1|d1|a1 v1|a1 v1|d1|d1], p2 as [b2|a2 v2|a2 v2|d2|d2|a2 v2|a2 v2|d2|d2];
+    try discriminate F1; try discriminate F2; cbn [proper_intersect] in Hs; try discriminate Hs.
+  - inversion Hs. destruct (Bool.eqb b1 b2); discriminate.
+  - destruct (num_inter a1 v1 a2 v2 (pfrag_num _ _ F1) (pfrag_num _ _ F2)) as (a & v & E & _ & _ & Hsub).
+    rewrite E in Hs. inversion Hs. apply (lit_subtype_not_true PNumber TgNumber a v v1 (pfrag_num_nonempty _ _ F1) Hsub).
+  - destruct (str_inter a1 v1 a2 v2 (pfrag_str _ _ F1) (pfrag_str _ _ F2)) as (a & v & E & _ & _ & Hsub).
+    rewrite E in Hs. inversion Hs. apply (lit_subtype_not_true PString TgString a v v1 (pfrag_str_nonempty _ _ F1) Hsub).
+  - destruct (bdd_res (intersect FUEL_BDD d1 d2)); cbn [bind] in Hs; [inversion Hs; discriminate|discriminate].
+  - destruct (bdd_res (intersect FUEL_BDD d1 d2)); cbn [bind] in Hs; [inversion Hs; discriminate|discriminate].
+  - destruct (bdd_res (intersect FUEL_BDD d1 d2)); cbn [bind] in Hs; [inversion Hs; discriminate|discriminate].
+  - destruct (bdd_res (intersect FUEL_BDD d1 d2)); cbn [bind] in Hs; [inversion Hs; discriminate|discriminate].
+Qed.
+
+Lemma contrib_false_smem o s pt : o = Ok (Some s) -> (forall g, s <> STrue g) -> contrib false o pt = smem s pt.
+Proof. intros -> H. destruct s as [g|g|p]; [reflexivity|exfalso; apply (H g); reflexivity|reflexivity]. Qed.
+
+Definition f_inter (pr : option proper * option proper) : res (option subtype) :=
+  match pr with
+  | (Some d1, None) => Ok (Some (SProper d1))
+  | (None, Some d2) => Ok (Some (SProper d2))
+  | (Some d1, Some d2) => do s <- proper_intersect d1 d2; Ok (Some s)
+  | _ => Ok None
+  end.
+Definition f_union (pr : option proper * option proper) : res (option subtype) :=
+  match pr with
+  | (Some d1, None) => Ok (Some (SProper d1))
+  | (None, Some d2) => Ok (Some (SProper d2))
+  | (Some d1, Some d2) => do s <- proper_union d1 d2; Ok (Some s)
+  | _ => Ok None
+  end.
+
+Lemma contrib_other_tag add o s pt : o = Ok (Some s) -> subtype_tag s <> point_tag pt -> contrib add o pt = false.
+Proof.
+  intros -> H. destruct s as [g|g|p]; cbn [contrib subtype_tag] in *; [reflexivity| |].
+  - destruct (stag_eqb g (point_tag pt)) eqn:E; [apply stag_eqb_eq in E; contradiction|apply andb_false_r].
+  - destruct (pmem p pt) eqn:E; [apply pmem_tag in E; contradiction|reflexivity].
+Qed.
+
+Lemma f_inter_local add tau pt : point_tag pt = tau -> forall o1 o2,
+  (forall p, o1 = Some p -> has_tau tau p = false) -> (forall p, o2 = Some p -> has_tau tau p = false) ->
+  contrib add (f_inter (o1, o2)) pt = false.
+Proof.
+  intros Hpt o1 o2 H1 H2. subst tau.
+  assert (NT : forall p, has_tau (point_tag pt) p = false -> proper_tag p <> point_tag pt).
+  { intros p Hp E. unfold has_tau in Hp. rewrite E, stag_eqb_refl in Hp. discriminate Hp. }
+  destruct o1 as [d1|], o2 as [d2|]; cbn [f_inter]; [| | |reflexivity].
+  - destruct (proper_intersect d1 d2) as [s|e] eqn:E; cbn [bind]; [|reflexivity].
+    apply (contrib_other_tag add _ s pt eq_refl). destruct (proper_intersect_tag _ _ _ E) as [T _]. rewrite T. apply NT. apply H1. reflexivity.
+  - apply (contrib_other_tag add _ (SProper d1) pt eq_refl). apply NT. apply H1. reflexivity.
+  - apply (contrib_other_tag add _ (SProper d2) pt eq_refl). apply NT. apply H2. reflexivity.
+Qed.
+Lemma f_union_local add tau pt : point_tag pt = tau -> forall o1 o2,
+  (forall p, o1 = Some p -> has_tau tau p = false) -> (forall p, o2 = Some p -> has_tau tau p = false) ->
+  contrib add (f_union (o1, o2)) pt = false.
+Proof.
+  intros Hpt o1 o2 H1 H2. subst tau.
+  assert (NT : forall p, has_tau (point_tag pt) p = false -> proper_tag p <> point_tag pt).
+  { intros p Hp E. unfold has_tau in Hp. rewrite E, stag_eqb_refl in Hp. discriminate Hp. }
+  destruct o1 as [d1|], o2 as [d2|]; cbn [f_union]; [| | |reflexivity].
+  - destruct (proper_union d1 d2) as [s|e] eqn:E; cbn [bind]; [|reflexivity].
+    apply (contrib_other_tag add _ s pt eq_refl). destruct (proper_union_tag _ _ _ E) as [T _]. rewrite T. apply NT. apply H1. reflexivity.
+  - apply (contrib_other_tag add _ (SProper d1) pt eq_refl). apply NT. apply H1. reflexivity.
+  - apply (contrib_other_tag add _ (SProper d2) pt eq_refl). apply NT. apply H2. reflexivity.
+Qed.
+
+Lemma wf2_inc t : wf2 t = true -> codes_increasing (st_data t) = true.
+Proof. unfold wf2. intros W. apply andb_prop in W as [W _]. apply andb_prop in W as [W _]. exact W. Qed.
+
+Lemma zero_bit x g : N.eqb x 0 = true -> has_bit x (stag_code g) = false.
+Proof. intros E. apply N.eqb_eq in E. rewrite E. apply has_bit_0. Qed.
+
+(* ---------- union ---------- *)
+Lemma sem_union_is_collect t1 t2 t :
+  sem_union t1 t2 = Ok t ->
+  let all := N.lor (st_all t1) (st_all t2) in
+  let some := N.land (N.lor (some_bits (st_data t1)) (some_bits (st_data t2))) (not_bits all) in
+  (N.eqb some 0 = true /\ t = mkSem all []) \/
+  (N.eqb some 0 = false /\ sem_collect (pair_iter some (st_data t1) (st_data t2)) f_union all true = Ok t).
+Proof.
+  unfold sem_union. cbv zeta. destruct (N.eqb _ 0) eqn:E; intros H.
+  - left. split; [reflexivity|]. inversion H. reflexivity.
+  - right. split; [reflexivity|]. exact H.
+Qed.
+
+Theorem sem_union_mem t1 t2 t pt :
+  wf2 t1 = true -> wf2 t2 = true -> valid_point pt = true -> sem_union t1 t2 = Ok t ->
+  mem t pt = mem t1 pt || mem t2 pt.
+Proof.
+  intros W1 W2 Hv Hd.
+  set (tau := point_tag pt).
+  rewrite (mem_lookup t1 pt W1), (mem_lookup t2 pt W2). fold tau.
+  pose proof (some_bits_lk tau (st_data t1)) as S1. pose proof (some_bits_lk tau (st_data t2)) as S2.
+  pose proof (wf2_inc t1 W1) as I1. pose proof (wf2_inc t2 W2) as I2.
+  set (A1 := has_bit (st_all t1) (stag_code tau)) in *. set (A2 := has_bit (st_all t2) (stag_code tau)) in *.
+  set (B1 := has_bit (some_bits (st_data t1)) (stag_code tau)) in *. set (B2 := has_bit (some_bits (st_data t2)) (stag_code tau)) in *.
+  set (sb := (B1 || B2) && negb (A1 || A2)).
+  assert (R : mem t pt = (A1 || A2) || (sb && contrib true (f_union (lk tau (st_data t1), lk tau (st_data t2))) pt)
+              /\ (sb = true -> opt_tau tau (lk tau (st_data t1)) || opt_tau tau (lk tau (st_data t2)) = true ->
+                  exists o, f_union (lk tau (st_data t1), lk tau (st_data t2)) = Ok o)).
+  { destruct (sem_union_is_collect t1 t2 t Hd) as [[Ez ->]|[Ez Hc]].
+    - pose proof (zero_bit _ tau Ez) as Z. rewrite !has_bit_land, !has_bit_not, !has_bit_lor in Z.
+      fold A1 A2 B1 B2 in Z. fold sb in Z. split.
+      + unfold mem. cbn [st_all st_data existsb]. rewrite orb_false_r. fold tau. rewrite has_bit_lor. fold A1 A2. rewrite Z. rewrite orb_false_r. reflexivity.
+      + intros Hs. congruence.
+    - split.
+      + rewrite (collect_mem _ _ _ _ _ pt Hc). fold tau.
+        rewrite (merge_spec tau _ (fun pr => contrib true (f_union pr) pt) (f_union_local true tau pt eq_refl) _ _ I1 I2).
+        rewrite !has_bit_land, !has_bit_not, !has_bit_lor. reflexivity.
+      + intros Hs Ht. eapply (collect_pair_ok tau _ f_union _ true _ _ t I1 I2 Hc); [|exact Ht].
+        rewrite !has_bit_land, !has_bit_not, !has_bit_lor. exact Hs. }
+  destruct R as [R Rok]. rewrite R. unfold sb in *. clear R. rewrite S1, S2 in *.
+  destruct (lk tau (st_data t1)) as [p1|] eqn:L1, (lk tau (st_data t2)) as [p2|] eqn:L2.
+  - destruct (wf2_lk t1 tau p1 W1 L1) as (F1 & T1 & E1). destruct (wf2_lk t2 tau p2 W2 L2) as (F2 & T2 & E2).
+    fold A1 in E1. fold A2 in E2. rewrite E1, E2 in *. cbn [andb orb negb f_union] in *.
+    destruct (proper_union p1 p2) as [s|e] eqn:E.
+    + cbn [bind]. rewrite (contrib_smem _ s pt eq_refl).
+      destruct (proper_union_spec p1 p2 s F1 F2 (eq_trans T1 (eq_sym T2)) E) as [_ M]. apply (M pt Hv (eq_sym T1)).
+    + exfalso. destruct (Rok eq_refl) as [o Ho]; [cbn [opt_tau]; destruct (lk_some _ _ _ L1) as [_ ->]; reflexivity|].
+      cbn [bind] in Ho. discriminate Ho.
+  - destruct (wf2_lk t1 tau p1 W1 L1) as (F1 & T1 & E1). fold A1 in E1. rewrite E1. cbn [andb orb negb f_union contrib].
+    destruct A2, (pmem p1 pt); reflexivity.
+  - destruct (wf2_lk t2 tau p2 W2 L2) as (F2 & T2 & E2). fold A2 in E2. rewrite E2. cbn [andb orb negb f_union contrib].
+    destruct A1, (pmem p2 pt); reflexivity.
+  - cbn [f_union contrib andb orb]. rewrite !orb_false_r. reflexivity.
+Qed.
+
+(* ---------- intersection ---------- *)
+Lemma sem_intersect_is_collect t1 t2 t :
+  sem_intersect t1 t2 = Ok t ->
+  let all := N.land (st_all t1) (st_all t2) in
+  let some := N.land (N.land (N.lor (some_bits (st_data t1)) (st_all t1)) (N.lor (some_bits (st_data t2)) (st_all t2))) (not_bits all) in
+  (N.eqb some 0 = true /\ t = mkSem all []) \/
+  (N.eqb some 0 = false /\ sem_collect (pair_iter some (st_data t1) (st_data t2)) f_inter all false = Ok t).
+Proof.
+  unfold sem_intersect. cbv zeta. destruct (N.eqb _ 0) eqn:E; intros H.
+  - left. split; [reflexivity|]. inversion H. reflexivity.
+  - right. split; [reflexivity|]. exact H.
+Qed.
+
+Theorem sem_intersect_mem t1 t2 t pt :
+  wf2 t1 = true -> wf2 t2 = true -> valid_point pt = true -> sem_intersect t1 t2 = Ok t ->
+  mem t pt = mem t1 pt && mem t2 pt.
+Proof.
+  intros W1 W2 Hv Hd.
+  set (tau := point_tag pt).
+  rewrite (mem_lookup t1 pt W1), (mem_lookup t2 pt W2). fold tau.
+  pose proof (some_bits_lk tau (st_data t1)) as S1. pose proof (some_bits_lk tau (st_data t2)) as S2.
+  pose proof (wf2_inc t1 W1) as I1. pose proof (wf2_inc t2 W2) as I2.
+  set (A1 := has_bit (st_all t1) (stag_code tau)) in *. set (A2 := has_bit (st_all t2) (stag_code tau)) in *.
+  set (B1 := has_bit (some_bits (st_data t1)) (stag_code tau)) in *. set (B2 := has_bit (some_bits (st_data t2)) (stag_code tau)) in *.
+  set (sb := ((B1 || A1) && (B2 || A2)) && negb (A1 && A2)).
+  assert (R : mem t pt = (A1 && A2) || (sb && contrib false (f_inter (lk tau (st_data t1), lk tau (st_data t2))) pt)
+              /\ (sb = true -> opt_tau tau (lk tau (st_data t1)) || opt_tau tau (lk tau (st_data t2)) = true ->
+                  exists o, f_inter (lk tau (st_data t1), lk tau (st_data t2)) = Ok o)).
+  { destruct (sem_intersect_is_collect t1 t2 t Hd) as [[Ez ->]|[Ez Hc]].
+    - pose proof (zero_bit _ tau Ez) as Z. rewrite !has_bit_land, !has_bit_not, !has_bit_lor, !has_bit_land in Z.
+      fold A1 A2 B1 B2 in Z. fold sb in Z. split.
+      + unfold mem. cbn [st_all st_data existsb]. rewrite orb_false_r. fold tau. rewrite has_bit_land. fold A1 A2. rewrite Z. rewrite orb_false_r. reflexivity.
+      + intros Hs. congruence.
+    - split.
+      + rewrite (collect_mem _ _ _ _ _ pt Hc). fold tau.
+        rewrite (merge_spec tau _ (fun pr => contrib false (f_inter pr) pt) (f_inter_local false tau pt eq_refl) _ _ I1 I2).
+        rewrite !has_bit_land, !has_bit_not, !has_bit_lor, !has_bit_land. reflexivity.
+      + intros Hs Ht. eapply (collect_pair_ok tau _ f_inter _ false _ _ t I1 I2 Hc); [|exact Ht].
+        rewrite !has_bit_land, !has_bit_not, !has_bit_lor, !has_bit_land. exact Hs. }
+  destruct R as [R Rok]. rewrite R. unfold sb in *. clear R. rewrite S1, S2 in *.
+  destruct (lk tau (st_data t1)) as [p1|] eqn:L1, (lk tau (st_data t2)) as [p2|] eqn:L2.
+  - destruct (wf2_lk t1 tau p1 W1 L1) as (F1 & T1 & E1). destruct (wf2_lk t2 tau p2 W2 L2) as (F2 & T2 & E2).
+    fold A1 in E1. fold A2 in E2. rewrite E1, E2 in *. cbn [andb orb negb f_inter] in *.
+    destruct (proper_intersect p1 p2) as [s|e] eqn:E.
+    + cbn [bind]. rewrite (contrib_false_smem _ s pt eq_refl (proper_intersect_not_true p1 p2 s F1 F2 E)).
+      destruct (proper_intersect_spec p1 p2 s F1 F2 (eq_trans T1 (eq_sym T2)) E) as [_ M]. apply (M pt Hv (eq_sym T1)).
+    + exfalso. destruct (Rok eq_refl) as [o Ho]; [cbn [opt_tau]; destruct (lk_some _ _ _ L1) as [_ ->]; reflexivity|].
+      cbn [bind] in Ho. discriminate Ho.
+  - destruct (wf2_lk t1 tau p1 W1 L1) as (F1 & T1 & E1). fold A1 in E1. rewrite E1. cbn [andb orb negb f_inter contrib].
+    destruct A2, (pmem p1 pt); reflexivity.
+  - destruct (wf2_lk t2 tau p2 W2 L2) as (F2 & T2 & E2). fold A2 in E2. rewrite E2. cbn [andb orb negb f_inter contrib].
+    destruct A1, (pmem p2 pt); reflexivity.
+  - cbn [f_inter contrib andb orb]. rewrite !orb_false_r, andb_false_r, orb_false_r. reflexivity.
+Qed.
+
+(* ---------- complement ---------- *)
+Lemma val_has_every_tag g : has_bit VAL (stag_code g) = true.
+Proof. destruct g; reflexivity. Qed.
+
+Theorem sem_complement_mem t c pt :
+  wf2 t = true -> valid_point pt = true -> sem_complement t = Ok c -> mem c pt = negb (mem t pt).
+Proof.
+  intros W Hv Hc. unfold sem_complement in Hc.
+  rewrite (sem_diff_mem (mkSem VAL []) t c pt eq_refl W Hv Hc).
+  unfold mem at 1. cbn [st_all st_data existsb]. rewrite val_has_every_tag. reflexivity.
 Qed.
